@@ -9,8 +9,9 @@
     crash put <init> <d> <size> <script> <kind> <n>
     crash import <init> <size> <script> <kind> <n>
     crash chunk <init> <size> <start> <stop> <cd> <script> <kind> <n>
+    crash link <variant 1|2> <manifest init> <blob file> <d> <kind> <n>      (state = the MANIFEST file)
                                            -> killed <state> | survived <state> <res>
-        init/state = absent | <hex> | - ; kind = open|write|trunc|rename ; n = 1-based occurrence killed at entry
+        init/state = absent | <hex> | - ; kind = open|write|trunc|rename|unlink ; n = 1-based occurrence killed at entry
     conc <init> <d> <size> <nw> script* <nev> (s<i>|d<i>)*
                                            -> state after each event, `,`-joined | result per writer
         s<i> = writer i runs from its stat to its first Read (stat + open, or the same-size return);
@@ -40,6 +41,7 @@ def pOp : TP Op := do
   | "import" => do let size ← nat; let s ← pScript; pure (.importB size s)
   | "get" => do let d ← hex; pure (.get d)
   | "link" => do let n ← hex; let d ← hex; pure (.link n d)
+  | "linkr" => do let n ← hex; let d ← hex; pure (.linkR n d)
   | "unlink" => do let n ← hex; pure (.unlink n)
   | "resolve" => do let n ← hex; pure (.resolve n)
   | "chunk" => do
@@ -63,6 +65,9 @@ def showOut : Out → String
   | .digest d => s!"dig:{hexOrDash d}"
   | .entry n => s!"entry:{n}"
   | .unlinked b => s!"unlinked:{b}"
+  | .pair r none => s!"{showRes r}/nohook"
+  | .pair r (some (some dg, _)) => s!"{showRes r}/dig:{hexOrDash dg}"
+  | .pair r (some (none, e)) => s!"{showRes r}/{showRes e}"
 
 def showSt : FileSt → String
   | none => "absent"
@@ -79,11 +84,13 @@ def opDigests : Op → List Digest
   | .put d _ _ => [d]
   | .get d => [d]
   | .link _ d => [d]
+  | .linkR _ d => [d]
   | .chunk d _ _ _ _ _ => [d]
   | _ => []
 
 def outDigests : Out → List Digest
   | .digest d => [d]
+  | .pair _ (some (some d, _)) => [d]
   | _ => []
 
 def showPath (p : MPath) : String := joinWith "/" (p.map hexOrDash)
@@ -108,6 +115,7 @@ def pKind : TP EffKind := do
   | "write" => pure .writeK
   | "trunc" => pure .truncK
   | "rename" => pure .renameK
+  | "unlink" => pure .unlinkK
   | _ => failure
 
 def crashOut (init : FileSt) (er : List Eff × Res) (kd : EffKind) (n : Nat) : String :=
@@ -192,6 +200,10 @@ def handle (toks : List String) : Option String :=
       let init ← pSt; let size ← nat; let a ← nat; let b ← nat; let cd ← hex; let s ← pScript
       let kd ← pKind; let n ← nat
       pure (crashOut init (chunkEffs H init size a b cd s) kd n)) rest
+  | "crash" :: "link" :: rest =>
+    runTP (do
+      let variant ← nat; let man ← pSt; let blob ← pSt; let d ← hex; let kd ← pKind; let n ← nat
+      pure (crashOut man (linkFileEffs H (variant == 2) man blob d) kd n)) rest
   | "conc" :: rest =>
     runTP (do
       let init ← pSt; let d ← hex; let size ← nat
